@@ -85,6 +85,12 @@ def check_mod(inp, out, attr):
     ks = kinds_of(tok.split_items(inner_o[cut:]))
     if ks != ["trait", "impl"]:
         return "mod-generated-shape", "generated part at the end of the module is %s, expected [trait, impl]" % ks
+    # items that are not fns are opaque to the macro: they come back token for token, None-delimited groups (macro_rules fragments
+    # at the top level of the item) included - only fn signatures are printed again by syn, which drops some of those groups
+    ngroups = lambda it: sum(1 for t_ in it if t_.get("g") == "" and "s" in t_)
+    for it_i, it_o in zip(tok.split_items(inner_i), tok.split_items(inner_o[:cut])):
+        if tok.item_kind(it_i)["kind"] != "fn" and tok.leaves(it_i) != tok.leaves(it_o):
+            return "mod-opaque-item-regrouped", "a non-fn item of the module lost / changed its None-delimited groups (%d -> %d): %s" % (ngroups(it_i), ngroups(it_o), tok.render(it_i, 200))
     after = out[bi + 1:]
     # `vis use mod_ident :: Trait ;`
     a_vis, ai = tok.vis_of(attr, 0)
